@@ -9,6 +9,16 @@ SIGS = ["SA", "SB"]
 def gen_scenario(rng, P=None):
   """driver programs: list of threads, each a list of API calls"""
   P = P or {}
+  if P.get("bad") and rng.random() < 0.2:
+    # fault injection (C13): a client queue without append() kills the delivery thread of one kind; is_alive() must say so
+    # and start() must bring back exactly the missing thread.  `settle` = wait until no other thread can run.
+    sig, other, kind = rng.choice([("SA", "SB"), ("SB", "SA")]) + (rng.choice(["fifo", "lifo"]),)
+    main = [["start"], ["sub", 0, sig, "fifo"], ["sub", 1, other, rng.choice(["fifo", "lifo"])], ["badsub", sig, kind], ["pub", sig, 1],
+            ["settle"], ["alive"], ["start"], ["settle"], ["alive"]]
+    if rng.random() < 0.5:
+      main += [["start"], ["settle"], ["alive"]]
+    main += [["pub", other, 1], ["settle"], ["stop"], ["settle"], ["alive"], ["start"], ["alive"]]
+    return {"nq": 2, "main": main, "pub2": [], "equal_queues": rng.random() < 0.5, "pre_start": False}
   nq = rng.randint(2, 3)
   ops = []
   started = False
@@ -65,8 +75,17 @@ class FabRun:
       k = op[0]
       if k == "sub":
         q = self.queues[op[1]]
+        self.emit(["subcall", "q%d" % op[1], op[2], op[3]])
         af.subscribe(q, Event(signal=op[2]), queue_type=op[3])
         self.emit(["sub", "q%d" % op[1], op[2], op[3], self.reg(op[3], op[2])])
+      elif k == "settle":
+        sc, mevt = self.sched, self.sched.me()
+        sc.point("settle", "", (), enabled=lambda: all(
+          vt is mevt or vt.state == "done" or vt.pending[0] == "settle" or not vt.is_enabled() for vt in sc.threads))
+      elif k == "badsub":
+        af.subscribe(self.badq, Event(signal=op[1]), queue_type=op[2])
+        self.poisoned.add(op[2])
+        self.emit(["sub", "qbad", op[1], op[2], self.reg(op[2], op[1])])
       elif k == "pub":
         self.eid += 1
         e = Event(signal=op[1], payload=self.eid)
@@ -109,6 +128,14 @@ class FabRun:
         self.af = ma.ActiveFabric()
         self.fix_names()
         self.queues, self.qname = [], {}
+
+        class BadQueue:            # "queue" of a faulty client: no append()
+          def __eq__(self, other):
+            return other is self
+          __hash__ = object.__hash__
+        self.badq, self.poisoned = BadQueue(), set()
+        self.qname[id(self.badq)] = "qbad"
+        sched.tolerate = lambda name, ex: name.startswith("fab_") and isinstance(ex, AttributeError) and "append" in str(ex)
         for i in range(scen["nq"]):
           q = shims.SDeque(maxlen=50)
           q.vname = "q%d" % i
@@ -139,7 +166,7 @@ class FabRun:
         res = {"outcome": out, "events": self.events, "errors": sched.errors, "blocked": sched.blocked(), "steps": sched.steps,
                "drivers_done": all(vt.state == "done" for vt in sched.threads if vt.name in ("main", "pub2")),
                "final_threads": [nf, nl], "schedule": [c[0] for c in sched.choices],
-               "queues": [[shims.ident(x) for x in q.raw()] for q in self.queues]}
+               "queues": [[shims.ident(x) for x in q.raw()] for q in self.queues], "poisoned": sorted(self.poisoned)}
       finally:
         left = sched.teardown()
         if left:
@@ -160,7 +187,8 @@ def validate(results):
   with open(path, "w") as f:
     for tid, r in results:
       f.write(json.dumps({"tid": tid, "ev": r["events"], "end": {"outcome": r["outcome"], "drivers_done": r["drivers_done"],
-                                                                   "nf": r["final_threads"][0], "nl": r["final_threads"][1]}}) + "\n")
+                                                                   "nf": r["final_threads"][0], "nl": r["final_threads"][1],
+                                                                   "poisoned": r.get("poisoned", [])}}) + "\n")
   t = tlc.run("FabricTrace.tla", CFG, workers="auto", env={"TRACE_FILE": path}, timeout=1800)
   os.unlink(path)
   if not t.ok and t.violated != "OneThreadPerKind":
